@@ -13,6 +13,14 @@ from .scen import MD, PATCHES
 BASE = 0x1000
 
 
+def base_of(m):
+    """lowest address of the text section: a rewrite that adds content to ANOTHER section makes the final layout move every section, so
+    positions are taken relative to where the text section now starts (BASE for every module that was not moved)"""
+    sec = [s_ for s_ in m.sections if s_.name == ".text"]
+    addrs = [i.address for s_ in sec for i in s_.byte_intervals if i.address is not None]
+    return min(addrs) if addrs else BASE
+
+
 def text_intervals(m):
     sec = [s for s in m.sections if s.name == ".text"][0]
     return sorted(sec.byte_intervals, key=lambda i: (i.address, i.size))
@@ -23,7 +31,7 @@ def view(ir, m):
     ivs = text_intervals(m)
     data = bytearray()
     contiguous = True
-    pos = BASE
+    pos = base_of(m)
     for i in ivs:
         if i.address != pos:
             contiguous = False
@@ -42,10 +50,10 @@ def view(ir, m):
         elif r not in live or r.address is None:
             labels[s.name] = "dangling"
         else:
-            labels[s.name] = r.address + (r.size if s.at_end else 0) - BASE
+            labels[s.name] = r.address + (r.size if s.at_end else 0) - base_of(m)
     v["labels"] = labels
-    v["block_offset"] = {b.uuid: b.address - BASE for b in m.byte_blocks if b.address is not None}
-    v["blocks"] = sorted((b.address - BASE, b.size, "code" if isinstance(b, gtirb.CodeBlock) else "data") for b in m.byte_blocks
+    v["block_offset"] = {b.uuid: b.address - base_of(m) for b in m.byte_blocks if b.address is not None}
+    v["blocks"] = sorted((b.address - base_of(m), b.size, "code" if isinstance(b, gtirb.CodeBlock) else "data") for b in m.byte_blocks
                          if b.address is not None and b.section.name == ".text")
     # annotations, absolute
     ann = {}
@@ -62,7 +70,7 @@ def view(ir, m):
             if getattr(e, "section", None) is not None and e.section.name != ".text":
                 continue
             size = e.size
-            out[e.address + k.displacement - BASE].append(val)
+            out[e.address + k.displacement - base_of(m)].append(val)
             if not (0 <= k.displacement <= size):
                 out["outside"].append((k.displacement, size))
         ann[name] = {k: sorted(map(str, x)) for k, x in out.items()}
@@ -71,7 +79,7 @@ def view(ir, m):
     for i in ivs:
         for k, e in i.symbolic_expressions.items():
             syms = [s.name for s in e.symbols]
-            sx[i.address + k - BASE] = (type(e).__name__, tuple(syms), getattr(e, "offset", None), tuple(sorted(a.name for a in e.attributes)),
+            sx[i.address + k - base_of(m)] = (type(e).__name__, tuple(syms), getattr(e, "offset", None), tuple(sorted(a.name for a in e.attributes)),
                                        all(s.module is m for s in e.symbols))
             if not (0 <= k < i.size):
                 sx["outside"] = (k, i.size)
@@ -101,16 +109,16 @@ def view(ir, m):
         if b.address is None or b.section.name != ".text":
             continue
         for a in range(b.address, b.address + b.size):
-            fo[a - BASE] = owner.get(b)
+            fo[a - base_of(m)] = owner.get(b)
     v["func_of"] = fo
-    v["func_entries"] = {fn[u].name: sorted(b.address - BASE for b in es if b.address is not None) for u, es in fe.items() if u in fn}
+    v["func_entries"] = {fn[u].name: sorted(b.address - base_of(m) for b in es if b.address is not None) for u, es in fe.items() if u in fn}
     v["func_problems"] = problems
     v["has_functions"] = bool(fb)
     # CFI state in force at each byte
     try:
         ev = []
         for blk, off, st in evaluate_cfi_directives(m, [b for b in m.code_blocks if b.section.name == ".text"]):
-            ev.append((blk.address + off - BASE, None if st is None else (repr(st.current.cfa), tuple(sorted((k, repr(x)) for k, x in st.current.registers.items())), len(st.save_stack))))
+            ev.append((blk.address + off - base_of(m), None if st is None else (repr(st.current.cfa), tuple(sorted((k, repr(x)) for k, x in st.current.registers.items())), len(st.save_stack))))
         cfi = {}
         for a in range(len(data) + 1):
             cur, seen = None, False
@@ -136,14 +144,14 @@ def inst_cfg(ir, m):
             continue
         insns = list(MD.disasm(bytes(b.contents), b.address))
         for i, nxt in zip(insns, insns[1:]):
-            out.add((i.address - BASE, nxt.address - BASE, "Fallthrough", False))
+            out.add((i.address - base_of(m), nxt.address - base_of(m), "Fallthrough", False))
         if not insns:
             continue
-        last = insns[-1].address - BASE
+        last = insns[-1].address - base_of(m)
         for e in b.outgoing_edges:
             t = e.target
             # an edge to an empty block continues with that block's own successors: not expected in final modules
-            tgt = "proxy" if isinstance(t, gtirb.ProxyBlock) else (t.address - BASE if t.address is not None else "noaddr")
+            tgt = "proxy" if isinstance(t, gtirb.ProxyBlock) else (t.address - base_of(m) if t.address is not None else "noaddr")
             out.add((last, tgt, e.label.type.name, bool(e.label.conditional)))
     return out
 
